@@ -869,6 +869,9 @@ class Pile(Widget, WidgetContainerMixin, WidgetContainerListContentsMixin):
 
         i = self.focus_position
         _widths, heights, size_args = self.get_rows_sizes(size, focus=True)
+        if not heights[i]:
+            # the focus widget got no rows: it is not rendered
+            return None
         if (coords := self.focus.get_cursor_coords(size_args[i])) is not None:
             x, y = coords
             if i > 0:
